@@ -248,6 +248,19 @@ class DrvDomain(Domain):
                   "t_check_exact_error", "t_avg_MGC_total", "t_avg_MGC_preSmoothing", "t_avg_MGC_postSmoothing",
                   "t_avg_MGC_residual", "t_avg_MGC_directSolver"):
             put(t, Opaque("time"))
+        # members this table does not name (added since it was written): their in-class initialiser if it is a plain
+        # literal, otherwise unassigned (reading it before the code assigns it is then an event, not a crash of the analysis)
+        cls = self.prog.classes.get("GMGPolar") or {}
+        for fd in cls.get("fields", []):
+            if fd["name"] in f:
+                continue
+            init = fd.get("init")
+            v = Undef(fd["name"])
+            while init is not None and init.get("k") in ("Paren", "Cast", "ImplicitCast", "Expr") and init.get("e") is not None:
+                init = init["e"]
+            if init is not None and init.get("k") in ("Int", "Bool") and "v" in init:
+                v = bool(init["v"]) if init["k"] == "Bool" else int(init["v"])
+            put(fd["name"], v)
         if fields:
             for k, v in fields.items():
                 put(k, v)
